@@ -1,5 +1,5 @@
 """C02 — bounded pipeline contracts (schema catalogue)."""
-from vlib import lgen, schemas
+from vlib import lgen, schemas, monrun
 
 META = {
   'level': 'other',
@@ -13,8 +13,13 @@ META = {
 
 
 def run(tier, seed):
-  return [schemas.run_schemas(lgen.by_tag('C02'), tier, seed, 'C02-schemas')]
+  return [schemas.run_schemas(lgen.by_tag('C02'), tier, seed, 'C02-schemas'),
+          monrun.run_monitors('C02', tier, seed)]
 
 
 def replay(spec):
+  if spec.get('kind') == 'monitor':
+    r = monrun.run_monitors('C02', 'quick', 0)
+    print('             ', [v['replay']['clause'] for v in r['violations']] or 'holds')
+    return not r['violations']
   return schemas.replay_schema(spec, lgen.by_tag('C02'))
